@@ -1,6 +1,6 @@
 """C16 GSL bindings: every registered function x argument lattice x request mode x dig configuration;
 oracle = determinism, no silent NaN, derivatives vs. central differences of the same binding."""
-import json, os, subprocess, sys
+import hashlib, json, os, subprocess, sys
 from concurrent.futures import ThreadPoolExecutor
 import vbuild, vcheck
 
@@ -16,7 +16,10 @@ def build():
         (os.path.join(vbuild.VERIF, 'checks/C16/gsl_harness.cc'), VARIANT, tuple(shim), ''),
         (os.path.join(vbuild.REPO, 'src/gsl/amplgsl.cc'), VARIANT, tuple(shim), 'c16'),
     ])
-    return vbuild.link('c16_gsl', objs, VARIANT, ['-lgsl', '-lgslcblas', '-lm'])
+    # one binary per source tree, so that a run against a scratch worktree ($VERIF_REPO) never replaces the
+    # binary of a concurrent run against /repo
+    name = 'c16_gsl' if vbuild.REPO == '/repo' else 'c16_gsl_' + hashlib.sha1(vbuild.REPO.encode()).hexdigest()[:8]
+    return vbuild.link(name, objs, VARIANT, ['-lgsl', '-lgslcblas', '-lm'])
 
 
 H_SHORT_MS = 200      # sharded pass: CPU horizon of a single binding call
@@ -49,8 +52,8 @@ def main(tier, seed):
             if r.get('type') != 'func':
                 continue
             f = funcs.setdefault((r['name'], r['arity']), dict(r, tuples=0, cases=0, noerr=0, err=0, d1_judged=0,
-                                                               d2_judged=0, d1_unstable=0, d2_unstable=0))
-            for k in ('tuples', 'cases', 'noerr', 'err', 'd1_judged', 'd2_judged', 'd1_unstable', 'd2_unstable'):
+                                                               d2_judged=0, d1_unstable=0, d2_unstable=0, crashed=0))
+            for k in ('tuples', 'cases', 'noerr', 'err', 'd1_judged', 'd2_judged', 'd1_unstable', 'd2_unstable', 'crashed'):
                 f[k] += r[k]
 
     # ---- phase 2: per function, the first (quick) / first, middle and last (thorough) tuple that exceeded the
@@ -71,6 +74,11 @@ def main(tier, seed):
     chk.set('tuples_rerun_returned', chk.cov.get('tuples', 0) - before)
     chk.set('tuples_not_judged_over_short_horizon', nslow - len(jobs))
 
+    groups = {}
+    for v in chk.violations:
+        g = v['sig'].split(' at (')[0]
+        groups[g] = groups.get(g, 0) + 1
+    chk.set('violation_signatures_by_function_and_clause', dict(sorted(groups.items())))
     names = set(n for n, _ in funcs)
     by_arity = {}
     for (n, a), f in funcs.items():
@@ -89,9 +97,9 @@ def main(tier, seed):
     if len(names) < 300 or chk.cov.get('functions_registered', 0) < 300:
         chk.broken.append('only %d functions registered/explored (expected ~343)' % len(names))
     for (n, a), f in sorted(funcs.items()):
-        if f['tuples'] + len(slow.get((n, a), [])) != f['space']:
-            chk.broken.append('%s: %d executed + %d over the horizon of %d tuples' % (n, f['tuples'],
-                              len(slow.get((n, a), [])), f['space']))
+        if f['tuples'] + f['crashed'] + len(slow.get((n, a), [])) != f['space']:
+            chk.broken.append('%s: %d executed + %d crashed + %d over the horizon of %d tuples'
+                              % (n, f['tuples'], f['crashed'], len(slow.get((n, a), [])), f['space']))
             break
     small = [f for f in funcs.values() if f['arity'] in (1, 2) and not f['random']]
     judged = [f for f in small if f['d1_judged'] > 0]
